@@ -173,6 +173,7 @@ func checkC05(c *core.Ctx) error {
 	checkCholeskyRun(c, d)
 	checkRotationOffsets(c)
 	checkPerIterationAccumulators(c)
+	checkHouseholderVector(c)
 	return nil
 }
 
